@@ -3,7 +3,7 @@
    the column scaling by the trivial one (C09_scaling_indep: the denoted model does not depend on it).
    Definitions only. *)
 From Coq Require Import List Arith Bool ZArith QArith Qabs Qcanon.
-From PV Require Import Base.Index Base.Sum Np.Array Model.Sparse Model.Repr Model.Harness Model.C09Als.
+From PV Require Import Base.Index Base.Sum Np.Array Model.Sparse Model.Repr Model.Harness Model.C09Als Model.C09Loop.
 Import ListNotations.
 Local Open Scope Qc_scope.
 
@@ -144,3 +144,28 @@ Definition update_ok (tol : Qc) (s : shape) (X : idx -> Qc) (R : nat) (Ub Ua : l
   normal_eq_ok tol s X (mkK w (upd Ub n (nth n Ua []))) n &&
   forallb (fun m => Nat.eqb m n || qmx_eqb (nth m Ub []) (nth m Ua [])) (seq 0 (length s)) &&
   forallb (fun x => qleb q0 x) w.
+
+(* iteration count: the run limited to m iterations reports min(m-1, first k >= 1 with |fit_k - fit_{k-1}| < stoptol);
+   trace = fits of the runs limited to 1, 2, 3, ... iterations from the same start *)
+Definition qltb (x y : Qc) : bool := negb (qleb y x).
+Fixpoint first_stop (tol prev : Qc) (l : list Qc) (k : nat) : option nat :=
+  match l with
+  | [] => None
+  | x :: l' => if qltb (qabs (prev - x)) tol then Some k else first_stop tol x l' (S k)
+  end.
+(* the proven outer-loop state machine (Model/C09Loop.v) driven by the observed fit trace: state = number of sweeps done *)
+Definition loop_iters (tol : Qc) (trace : list Qc) (m : nat) : option nat :=
+  match cpals_run (fun (_ : nat) (k : nat) => S k) (fun k => (q0, nth (k - 1) trace q0)) (fun _ => (q0, q0))
+                  (fun fitold fit stoptol => qltb (qabs (fitold - fit)) stoptol) q0 (fun k => k) (fun k => k)
+                  tol 0%nat 0%nat m false with
+  | Some r => Some (r_iters r)
+  | None => None
+  end.
+Definition expected_iters (tol : Qc) (trace : list Qc) (m : nat) : nat :=
+  match trace with
+  | [] => 0%nat
+  | t0 :: l => match first_stop tol t0 (firstn (m - 1) l) 1 with Some k => k | None => (m - 1)%nat end
+  end.
+Definition iters_ok (tol : Qc) (trace : list Qc) (ms its : list nat) : bool :=
+  forallb (fun p => match loop_iters tol trace (fst p) with Some k => Nat.eqb k (snd p) | None => false end
+                    && Nat.eqb (expected_iters tol trace (fst p)) (snd p)) (combine ms its).
